@@ -53,6 +53,16 @@ maybe theorem tie_drain_as_mut_slices (d : Drain) (s : Sys) (h : Inv s.buf) :
     Gen.Drain_as_mut_slices d s = Drain.asSlices d s := by
   first | rfl | (tie2 h [Gen.Drain_as_mut_slices, Drain.asSlices]; done)
 
+/-! ### `CircularSlicePtr` -/
+maybe theorem tie_csp_as_ptr : Gen.CSP_as_ptr = CSP.ptr := by
+  first | rfl | (funext p s; tie [Gen.CSP_as_ptr, CSP.ptr]; done)
+maybe theorem tie_csp_as_mut_ptr : Gen.CSP_as_mut_ptr = CSP.ptr := by
+  first | rfl | (funext p s; tie [Gen.CSP_as_mut_ptr, CSP.ptr]; done)
+maybe theorem tie_csp_available_len : Gen.CSP_available_len = CSP.availableLen := by
+  first | rfl | (funext p s; tie [Gen.CSP_available_len, CSP.availableLen]; done)
+maybe theorem tie_csp_add : Gen.CSP_add = CSP.add := by
+  first | rfl | (funext p inc s; tie [Gen.CSP_add, CSP.add]; done)
+
 /-- `Drain::as_slices` only reads -/
 theorem Drain.asSlices_state (d : Drain) (s : Sys) : (Drain.asSlices d s).2 = s := by
   tieS [Drain.asSlices]
@@ -68,7 +78,8 @@ theorem tie_drain_drop_step (d : Drain) (x : CSP × CSP × Nat) (s : Sys) (hI : 
      obtain ⟨h1, h2, h3, h4⟩ := hI
      obtain ⟨⟨bl, bo⟩, ⟨hl, ho⟩, rem⟩ := x
      simp only [backfillChunk] at *
-     simp only [Gen.Drain_drop_step, CSP.availableLen, CSP.ptr, CSP.add, bind_assoc_run, dassert_bind, getBuf_bind,
+     simp only [Gen.Drain_drop_step, tie_csp_as_ptr, tie_csp_as_mut_ptr, tie_csp_available_len, tie_csp_add,
+       CSP.availableLen, CSP.ptr, CSP.add, bind_assoc_run, dassert_bind, getBuf_bind,
        setBuf_bind, pure_bind_run, raise_bind, ite_bind, ite_run, dassert_run, getBuf_run, setBuf_run, liftE_bind,
        pure_run, raise_run, amod, smod, setItems, decide_eq_true_eq]
      repeat' (first
@@ -136,7 +147,7 @@ theorem tie_drain_drop (d : Drain) (s : Sys) (h : Inv s.buf) (hrs : d.rs ≤ s.b
              cases r1 with
              | error p => rfl
              | ok u =>
-               simp (disch := drainSide) only [getBuf_bind, getBuf_run, ite_run, bind_assoc_run, liftE_bind, liftE_run, hb, hc,
+               simp (disch := drainSide) only [tie_csp_add, getBuf_bind, getBuf_run, ite_run, bind_assoc_run, liftE_bind, liftE_run, hb, hc,
                  if_false, ite_false, bind_run, usub_ok', CSP.add_run, tie_drain_drop_loop, setSize, setBuf_run, pure_run, pure_bind_run]
                all_goals (first | rfl | (generalize backfillLoop _ _ _ _ s1 = z; obtain ⟨r2, s2⟩ := z; cases r2 <;> rfl)))
 
